@@ -10,6 +10,7 @@ import (
 	"regexp"
 	"sort"
 	"strings"
+	"sync"
 	"testing"
 	"testing/synctest"
 	"time"
@@ -248,7 +249,9 @@ type aclWorldState struct {
 	ttl       time.Duration
 	down      string
 	rpcFail   int
-	rpcErrs   int      // RPC failures during the current resolution
+	rpcErrs   int // RPC failures during the current resolution
+	rpcMu     sync.Mutex
+	rpcFailed int      // failed RPCs not yet added to the run's counters
 	shadow    *Replica // applies the same log and is never handed to a resolver: the reference reads it
 	shadowAt  int
 	lastACL   time.Time
@@ -368,6 +371,37 @@ func refIntention(rules []aclRule, name, need string, defAllow bool) bool {
 	return defAllow
 }
 
+// refReadAll: "may read every service (node)": no name whatsoever is refused, i.e. no rule for
+// the kind - exact or prefix, after merging rules for the same name - denies read, and names that
+// match no rule are readable (the rule for the empty prefix, else the default policy).
+func refReadAll(rules []aclRule, kind string, defAllow bool) bool {
+	exact, prefix := map[string]string{}, map[string]string{}
+	for _, ru := range rules {
+		if ru.kind != kind {
+			continue
+		}
+		if ru.prefix {
+			prefix[ru.name] = mergeLevel(prefix[ru.name], ru.level)
+		} else {
+			exact[ru.name] = mergeLevel(exact[ru.name], ru.level)
+		}
+	}
+	for _, l := range exact {
+		if !enforce(l, "read") {
+			return false
+		}
+	}
+	for _, l := range prefix {
+		if !enforce(l, "read") {
+			return false
+		}
+	}
+	if l, ok := prefix[""]; ok {
+		return enforce(l, "read")
+	}
+	return defAllow
+}
+
 type aclProbe struct{ kind, name, need string }
 
 func aclProbes() []aclProbe {
@@ -388,6 +422,7 @@ func aclProbes() []aclProbe {
 			out = append(out, aclProbe{"intention", n, "read"}, aclProbe{"intention", n, "write"})
 		}
 	}
+	out = append(out, aclProbe{"service", "", "readall"}, aclProbe{"node", "", "readall"})
 	return out
 }
 
@@ -436,6 +471,10 @@ func askAuthorizer(a acl.Authorizer, p aclProbe) bool {
 		d = a.KeyringRead(nil)
 	case "keyring:write":
 		d = a.KeyringWrite(nil)
+	case "service:readall":
+		d = a.ServiceReadAll(nil)
+	case "node:readall":
+		d = a.NodeReadAll(nil)
 	case "intention:read":
 		d = a.IntentionRead(p.name, nil)
 	case "intention:write":
@@ -456,9 +495,23 @@ func (s *aclWorldState) syncShadow() {
 }
 
 func (s *aclWorldState) effectiveRules(tok *structs.ACLToken, dc string) (rules []aclRule, desc []string) {
-	st := s.shadow.State()
+	// the raw rows of the shadow replica: no store accessor (they fix links up, which is code under test)
+	policies, roles := map[string]*structs.ACLPolicy{}, map[string]*structs.ACLRole{}
+	s.shadow.State().WalkAllTables(func(table string, item interface{}) bool {
+		switch table {
+		case "acl-policies":
+			policies[item.(*structs.ACLPolicy).ID] = item.(*structs.ACLPolicy)
+		case "acl-roles":
+			roles[item.(*structs.ACLRole).ID] = item.(*structs.ACLRole)
+		case "acl-tokens":
+			if t := item.(*structs.ACLToken); t.AccessorID == tok.AccessorID {
+				tok = t
+			}
+		}
+		return true
+	})
 	addPolicy := func(id, via string) {
-		_, p, _ := st.ACLPolicyGetByID(nil, id, nil)
+		p := policies[id]
 		if p == nil {
 			return
 		}
@@ -504,7 +557,7 @@ func (s *aclWorldState) effectiveRules(tok *structs.ACLToken, dc string) (rules 
 		}
 	}
 	for _, rl := range tok.Roles {
-		_, role, _ := st.ACLRoleGetByID(nil, rl.ID, nil)
+		role := roles[rl.ID]
 		if role == nil {
 			continue
 		}
@@ -519,11 +572,15 @@ func (s *aclWorldState) effectiveRules(tok *structs.ACLToken, dc string) (rules 
 }
 
 func (s *aclWorldState) clientRPC(_ context.Context, method string, args, reply interface{}) error {
+	// (with the async-cache down policy the resolver refreshes in background goroutines: this may run
+	// beside the scheduler until its next synctest.Wait, so it only touches fields under the mutex)
+	s.rpcMu.Lock()
+	defer s.rpcMu.Unlock()
 	if s.rpcFail > 0 {
 		s.rpcFail--
 		s.rpcErrs++
+		s.rpcFailed++
 		s.lastFault = time.Now() // extend-cache re-dates what it had: stale entries live one more TTL
-		s.r.Hit("fault.acl-rpc-failed")
 		return errors.New("rpc error making call: simulated: no servers reachable")
 	}
 	// the request and the reply cross the wire
@@ -573,6 +630,10 @@ func (s *aclWorldState) resolve(secret string, client bool) (res acl.Authorizer,
 		}
 	})
 	synctest.Wait()
+	s.rpcMu.Lock()
+	s.r.Add("fault.acl-rpc-failed", int64(s.rpcFailed))
+	s.rpcFailed = 0
+	s.rpcMu.Unlock()
 	return res, err
 }
 
@@ -634,6 +695,9 @@ func (s *aclWorldState) judgeResolve(i int, st Step) *simkit.Violation {
 		want := refDecide(rules, p.kind, p.name, p.need, s.defAllow)
 		if p.kind == "intention" {
 			want = refIntention(rules, p.name, p.need, s.defAllow)
+		}
+		if p.need == "readall" {
+			want = refReadAll(rules, p.kind, s.defAllow)
 		}
 		if got := askAuthorizer(authz, p); got != want {
 			return mk("C08", "decision-mismatch", "decision-equals-reference-semantics",
@@ -835,6 +899,73 @@ func (s *aclWorldState) judgeFilter(i int, st Step) *simkit.Violation {
 		}
 		if v.ResultsFilteredByACLs != (fmt.Sprint(in) != fmt.Sprint(want)) {
 			return mk("IndexedNodeDump", fmt.Sprintf("dump %v filtered to %v but the filtered flag is %v", in, out, v.ResultsFilteredByACLs))
+		}
+		s.r.Hit("probe.filter-cases")
+	}
+	// DatacenterIndexedCheckServiceNodes: per datacenter; emptied datacenters go; one flag for all
+	{
+		var v structs.DatacenterIndexedCheckServiceNodes
+		v.DatacenterNodes = map[string]structs.CheckServiceNodes{}
+		want := map[string][]string{}
+		removed := false
+		for d, nd := 0, 1+rng.IntN(5); d < nd; d++ {
+			dc := fmt.Sprint("dc", d)
+			for k, n := 0, cnt(); k < n; k++ {
+				nn, sn := pickN(), pickS()
+				v.DatacenterNodes[dc] = append(v.DatacenterNodes[dc], structs.CheckServiceNode{Node: &structs.Node{Node: nn}, Service: &structs.NodeService{ID: sn, Service: sn}})
+				if pairOK(nn + "|" + sn) {
+					want[dc] = append(want[dc], nn+"|"+sn)
+				} else {
+					removed = true
+				}
+			}
+		}
+		flt.Filter(&v)
+		got := map[string][]string{}
+		for dc, nodes := range v.DatacenterNodes {
+			for _, x := range nodes {
+				got[dc] = append(got[dc], x.Node.Node+"|"+x.Service.Service)
+			}
+			if len(nodes) == 0 {
+				return mk("DatacenterIndexedCheckServiceNodes", "datacenter "+dc+" is listed with no entries left")
+			}
+		}
+		if fmt.Sprint(got) != fmt.Sprint(want) {
+			return mk("DatacenterIndexedCheckServiceNodes", fmt.Sprintf("filtered to %v, the authorizer allows exactly %v", got, want))
+		}
+		if v.ResultsFilteredByACLs != removed {
+			return mk("DatacenterIndexedCheckServiceNodes", fmt.Sprintf("entries removed=%v but the filtered flag is %v (kept %v)", removed, v.ResultsFilteredByACLs, got))
+		}
+		s.r.Hit("probe.filter-cases")
+	}
+	// ACL tokens: unreadable ones go, secrets are hidden from readers without acl:write - in the
+	// answer, never in the objects the answer was built from (they are the stored tokens)
+	{
+		var toks structs.ACLTokens
+		var originals []*structs.ACLToken
+		for k, n := 0, cnt(); k < n; k++ {
+			t := &structs.ACLToken{AccessorID: fmt.Sprint("acc", k), SecretID: fmt.Sprint("secret", k)}
+			toks = append(toks, t)
+			originals = append(originals, t)
+		}
+		canRead, canWrite := authz.ACLRead(nil) == acl.Allow, authz.ACLWrite(nil) == acl.Allow
+		flt.Filter(&toks)
+		for k, t := range originals {
+			if t.SecretID != fmt.Sprint("secret", k) {
+				return mk("ACLTokens", fmt.Sprintf("filtering changed the token object it was given: secret of %s is now %q", t.AccessorID, t.SecretID))
+			}
+		}
+		switch {
+		case !canRead && len(toks) != 0:
+			return mk("ACLTokens", fmt.Sprintf("the token may not read ACLs but %d tokens were returned", len(toks)))
+		case canRead && len(toks) != len(originals):
+			return mk("ACLTokens", fmt.Sprintf("the token may read ACLs but %d of %d tokens were returned", len(toks), len(originals)))
+		}
+		for k, t := range toks {
+			hidden := t.SecretID == aclfilter.RedactedToken
+			if hidden == canWrite {
+				return mk("ACLTokens", fmt.Sprintf("acl:write=%v but the secret of token %d is returned as %q", canWrite, k, t.SecretID))
+			}
 		}
 		s.r.Hit("probe.filter-cases")
 	}
